@@ -1,19 +1,26 @@
 #!/usr/bin/env python3
-"""Owner's tool (never run by a check): run a check, and append each VIOLATION key it prints to
-known_findings.json with the first line of its description. Usage: add_kf.py C13 [key-prefix-filter] """
-import json, subprocess, sys, re
+"""Owner's tool (never run by a check): run a check (or read its log, KF_LOG=<file>), and append each
+violation it printed to known_findings.json. The exact key is taken from the replay file named on the
+VIOLATION line (keys may contain blanks). Usage: add_kf.py C13 [key-prefix-filter] [note]"""
+import json, subprocess, sys, re, os
 pid=sys.argv[1]; filt=sys.argv[2] if len(sys.argv)>2 else ""
 note=sys.argv[3] if len(sys.argv)>3 else ""
-import os
 out=open(os.environ["KF_LOG"]).read() if os.environ.get("KF_LOG") else subprocess.run(["./check",pid,"--tier","quick","--no-build"],capture_output=True,text=True,cwd="/verif").stdout
 d=json.load(open("/verif/known_findings.json"))
 have={(f["property"],f["key"]) for f in d["findings"]}
 n=0
-for m in re.finditer(r"^  key=(\S+) (.*)$", out, re.M):
-    key,what=m.group(1),m.group(2)
+for m in re.finditer(r"^VIOLATION property=(\S+) replay=(\S+)\n  key=(.*)$", out, re.M):
+    if m.group(1)!=pid: continue
+    try:
+        rp=json.load(open(m.group(2)))
+        key,what=rp["key"],rp["what"]
+    except Exception as ex:
+        print("cannot read",m.group(2),ex); continue
+    if not m.group(3).startswith(key):
+        print("replay file does not match the printed key:",m.group(2)); continue
     if filt and not key.startswith(filt): continue
     if (pid,key) in have: continue
-    d["findings"].append({"property":pid,"key":key,"what":(what[:400]+(" "+note if note else ""))})
+    d["findings"].append({"property":pid,"key":key,"what":(str(what)[:400]+(" "+note if note else ""))})
     have.add((pid,key)); n+=1
 json.dump(d,open("/verif/known_findings.json","w"),indent=1)
 print("added",n)
